@@ -11,10 +11,19 @@ def enc_wval(kind, x):
     return ["b", bytes(x[0]), x[1]] if kind == "BLOB" else ["t", x]
 
 
+def flat_ops(c):
+    """(flattened operations, index of the last flattened operation of every top-level one)"""
+    flat, ends = [], []
+    for op in c["ops"]:
+        flat += op[1] if op[0] == "burst" else [op]
+        ends.append(len(flat) - 1)
+    return flat, ends
+
+
 def system_input(c):
     deps, ceps = eps(c)
     ops = []
-    for op in c["ops"]:
+    for op in flat_ops(c)[0]:
         if op[0] == "drv":
             ops.append(["drv", deps[op[1]], drvgen.enc_op(c["devices"][op[1]], op[2])])
         elif op[0] == "handshake":
@@ -34,7 +43,9 @@ def compare_system(c, obs, mout, check_clients=True):
         return "implementation %s %s" % (obs["status"], obs.get("detail", ""))
     if not isinstance(mout, list):
         return "model rejected the input"
-    for k, (st, ms) in enumerate(zip(obs["steps"], mout)):
+    ends = flat_ops(c)[1]
+    for k, st in enumerate(obs["steps"]):
+        ms = mout[ends[k]]
         if st.get("long"):
             # a message longer than the junk-recovery threshold travelled on a threshold-enabled link: the byte-level
             # outcome (known finding K1) is outside the message-level model; nothing is claimed from here on
